@@ -140,6 +140,39 @@ def units(rng, tier):
                 kw = {"objective": [2, 0]}
             u = part_unit(a, k, vals, rng, fmt="list", out="sums", cmp=None if a == "ilp" else ("value" if a in EXACT_PART else "sums"), family=fam, **kw)
             us.append(tag(u, grp, "agree", planted=(fam == "planted-perfect")))
+    # agreement for every objective on inputs small enough for dp: dp, complete greedy under two random switch vectors, ilp (sometimes);
+    # planted perfect partitions (total divisible by the number of bins) are over-represented: that is where bounds are tight
+    for _ in range(120 if tier == "quick" else 1500):
+        k = rng.choice([2, 2, 3, 3, 4])
+        if rng.random() < 0.6:
+            T = rng.randint(8, 40)
+            vals = []
+            for _b in range(k):
+                rest = T
+                for j in range(rng.randint(0, 2)):
+                    if rest <= 1:
+                        break
+                    x = rng.randint(1, rest - 1)
+                    vals.append(x)
+                    rest -= x
+                vals.append(rest)
+            fam = "agree-small/planted-perfect"
+        else:
+            vals, fam = gen.values(rng, nmax=7, vmax=60)
+            fam = "agree-small/" + fam
+        vals = vals[:7]
+        rng.shuffle(vals)
+        o = rng.choice([[0, 0], [1, 0], [1, 0], [2, 0]])
+        _gid[0] += 1
+        grp = f"{_gid[0]}/agree"
+        algos = ["dp", "cg", "cg2"] + (["ilp"] if rng.random() < (0.15 if tier == "quick" else 0.4) else [])
+        for a in algos:
+            kw = {"objective": o}
+            if a.startswith("cg"):
+                kw["flags"] = [rng.randint(0, 1) for _ in range(4)]
+            u = part_unit("cg" if a.startswith("cg") else a, k, vals, rng, fmt="list", out="sums" if a != "dp" else "pst",
+                          cmp=None if a == "ilp" else "value", family=fam, **kw)
+            us.append(tag(u, grp, "agree", planted=False, label=a))
     return us
 
 
@@ -203,13 +236,12 @@ def extra_checks(rng, tier, us, oc):
             heur = {}
             for i in role["agree"]:
                 a = us[i]["params"]["algo"]
-                s = rsums(oc.impl[i])
-                d = max(s) - min(s)
-                (vals if a in EXACT_PART else heur)[a] = (d, i)
+                d = value_of(us[i], oc.impl[i]) if a in EXACT_PART else UN.obj_value(*us[role["agree"][0]]["params"].get("objective", [2, 0]), rsums(oc.impl[i]))
+                (vals if a in EXACT_PART else heur)[us[i].get("label", a)] = (d, i)
             trusted = {a: v for a, v in vals.items() if a != "rnp"}
             ds = set(d for d, _ in trusted.values())
             if len(ds) > 1:
-                out.append({"text": f"exact algorithms disagree on the optimal difference: { {a: d for a, (d, _) in vals.items()} } for items {us[idx[0]]['params']['vals']}, k={us[idx[0]]['params']['k']}",
+                out.append({"text": f"exact algorithms disagree on the optimal value of objective {us[idx[0]]['params'].get('objective', [2, 0])}: { {a: d for a, (d, _) in vals.items()} } for items {us[idx[0]]['params']['vals']}, k={us[idx[0]]['params']['k']}",
                             "units": [us[i] for _, i in trusted.values()]})
                 continue
             best = min(ds)
